@@ -353,6 +353,34 @@ func genRealTCP(p *Plan, r *RNG, long bool) {
 	if long {
 		rounds = r.Range(4, 12)
 	}
+	if long && r.Chance(1, 3) {
+		// the first nonce hour ends with nothing of the library's own on the wire for a while
+		// (a one-hour allocation is refreshed every 30 minutes, and a permission asked for by the
+		// application is not in the library's refresh set): the first request with the aged
+		// nonce is the ConnectionBind of an Accept, or the Connect of a Dial
+		p.Flavor += "+nonce-hour"
+		p.Cfg.AllocLifeS = 3600
+		pi := r.Intn(np)
+		pid, peer := p.Peers[pi].ID, p.Peers[pi].Addr
+		at := int64(3600+r.Range(70, 1500)) * sec // absolute instant of the call
+		if r.Chance(1, 2) {
+			add(Op{Actor: "c1", Kind: "perm", At: gap(at - 120*sec - 2500*ms), A: OpArgs{Peer: peer}})
+			add(Op{Actor: pid, Kind: "peer_connect", At: gap(118 * sec), A: OpArgs{Target: "c1", N: 0}})
+			add(Op{Actor: "c1", Kind: "accept", At: gap(2 * sec), A: OpArgs{DurNS: 28 * sec, N: len(p.Ops), Flags: []string{"expect"}}})
+			permitted[pi], everPermitted[pi] = true, true
+			nconn++
+			npeerc[pid]++
+		} else {
+			add(Op{Actor: "c1", Kind: "perm", At: gap(at - 120*sec - 2500*ms), A: OpArgs{Peer: peer}})
+			add(Op{Actor: "c1", Kind: "dial", At: gap(120 * sec), A: OpArgs{Peer: peer, Flags: []string{"expect"}}})
+			dialled[pi] = true
+			permitted[pi], everPermitted[pi] = true, true
+			nconn++
+			npeerc[pid]++
+		}
+		add(Op{Actor: "", Kind: "wait", At: gap(3 * sec)})
+		data(r.Range(1, 3))
+	}
 	for i := 0; i < rounds; i++ {
 		pi := r.Intn(np)
 		pid, peer := p.Peers[pi].ID, p.Peers[pi].Addr
